@@ -7,7 +7,7 @@ the history, and the oracle is an independent linear chain-of-responsibility int
 import abc
 import random
 from dataclasses import dataclass
-from typing import List, Optional
+from typing import Annotated, List, NewType, Optional
 
 from adaptix import AdornedRetort, CannotProvide, Chain, DebugTrail, P, Provider, ProviderNotFoundError, Retort, bound, dumper, loader
 from adaptix._internal.morphing.request_cls import DebugTrailRequest, DumperRequest, LoaderRequest, StrictCoercionRequest
@@ -59,9 +59,14 @@ class RN:
 
 
 ListA = List[A]
-TYPES = {"A": A, "B": B, "C1": C1, "int": int, "str": str, "M": M, "ListA": ListA, "RN": RN}
+NtA = NewType("NtA", A)
+AnnA = Annotated[A, "m"]
+# request types whose origin is not the class itself: an exact-class predicate for A must not match them, the
+# builtin tail unwraps them and re-sends the request for A from the top of the recipe
+TYPES = {"A": A, "B": B, "C1": C1, "int": int, "str": str, "M": M, "ListA": ListA, "RN": RN,
+         "OptA": Optional[A], "AnnA": AnnA, "NtA": NtA}
 TNAME = {A: "A", B: "B", C1: "C1", int: "int", str: "str", M: "M", ListA: "ListA", Abs: "Abs", RN: "RN",
-         Optional[RN]: "OptRN", type(None): "None"}
+         Optional[RN]: "OptRN", type(None): "None", Optional[A]: "OptA", AnnA: "AnnA", NtA: "NtA"}
 MODELS = {"M": (M, [("x", "int"), ("a", "A"), ("s", "str")]), "RN": (RN, [("v", "A"), ("next", "OptRN")])}
 M_FIELDS = MODELS["M"][1]
 
@@ -110,10 +115,14 @@ PREDS = {
 
 
 def pred_match(name, st):
-    """'any:p1,p2' is a provider bound to several predicates at once (the facade's bound_by_any)."""
+    """'any:p1;p2' is a provider bound to several predicates at once (the facade's bound_by_any)."""
     if name.startswith("any:"):
         return any(PREDS[p][1](st) for p in name[4:].split(";"))
     return PREDS[name][1](st)
+
+
+def item_match(it, st):
+    return pred_match(it["pred"], st) and (not it.get("pred2") or PREDS[it["pred2"]][1](st))
 
 
 GROUPABLE = [k for k, v in PREDS.items() if v[2]]
@@ -205,6 +214,9 @@ def build_item(it, log, inner=None):
             if inner is not None:
                 inner[i] = obj
         return obj if it["pred"] == "ANY" and it.get("unbound") else bound(pred, obj)
+    if it.get("pred2"):
+        # two nested bounds: the bounding provider has to AND its predicate with the inner one
+        return bound(pred, bound(PREDS[it["pred2"]][0](), Faulty(i, kind, log)))
     return bound(pred, Faulty(i, kind, log))
 
 
@@ -289,7 +301,7 @@ class Model:
             kind = it["kind"]
             if kind in ("plain", "first", "last") and it["dir"] != d:
                 continue
-            if not pred_match(it["pred"], st):
+            if not item_match(it, st):
                 continue
             idx = it["idx"]
             if kind == "plain":
@@ -371,12 +383,19 @@ class Model:
                     return cls(**{f: subs[f](data[f]) for f, _ in fields})
                 return load_m
             return lambda obj: {f: subs[f](getattr(obj, f)) for f, _ in fields}
-        if t == "OptRN":
+        if t in ("OptRN", "OptA"):
             try:
-                el = self.serve(spec, [*st, ("RN", None, "G")], d, 0)
+                el = self.serve(spec, [*st, (t[3:], None, "G")], d, 0)
             except NotFound:
                 raise Terminal from None
             return lambda x: None if x is None else el(x)
+        if t in ("AnnA", "NtA"):
+            # unwrapping providers re-send the request with the last type replaced (same location otherwise);
+            # a failure there is an ordinary decline of the unwrapping provider, behind which nothing else serves
+            try:
+                return self.serve(spec, [*st[:-1], ("A", st[-1][1], st[-1][2])], d, 0)
+            except Terminal:
+                raise NotFound from None
         if t == "ListA":
             try:
                 el = self.serve(spec, [*st, ("A", None, "G")], d, 0)
@@ -491,6 +510,8 @@ def gen_items(rng, n, counter, depth=0):
                          "instance": gen_items(rng, rng.randint(1, 3), counter, 1), "classes": []}
         if multi and it["kind"] not in ("plain", "first", "last", "retort"):
             it["pred"] = "any:" + ";".join(rng.sample(sorted(PREDS), rng.randint(2, 3)))
+        elif it["kind"] not in ("plain", "first", "last", "retort") and rng.random() < 0.08:
+            it["pred2"] = rng.choice(sorted(PREDS))
         items.append(it)
     return items
 
@@ -750,7 +771,7 @@ def violation_class(result):
 
 def shape(scn):
     def sh(items):
-        return [f"{it['kind']}:{it['pred']}" + (f"[{','.join(sh(it['sub']['instance']))}]" if it["kind"] == "retort" else "")
+        return [f"{it['kind']}:{it['pred']}" + (f"&&{it['pred2']}" if it.get("pred2") else "") + (f"[{','.join(sh(it['sub']['instance']))}]" if it["kind"] == "retort" else "")
                 for it in items]
     return {"instance": sh(scn["spec"]["instance"]), "classes": [sh(c) for c in scn["spec"].get("classes", [])],
             "mixin": sh(scn["spec"]["mixin"]) if scn["spec"].get("mixin") else None,
